@@ -48,6 +48,10 @@ class _Infeasible(Exception):
     pass
 
 
+class _IterationDone(Exception):
+    """End of the 'arbitrary iteration' branch of a loop with an invariant (the preservation VCs are recorded)."""
+
+
 class _Abort(Exception):
     """Path cut by the executor; the VC layer must prove that its path condition is infeasible."""
     def __init__(self, why): self.why = why
@@ -104,6 +108,11 @@ class BoolV:
 class ListV:
     """The raw `_streams` list of the sequence object `seq` (identified with it)."""
     def __init__(self, seq): self.seq = seq
+
+
+class ExtSeq:
+    """An immutable sequence of references handed in by the caller (a tuple/list argument): length n, elements arr[0..n)."""
+    def __init__(self, n, arr): self.n, self.arr = n, arr
 
 
 class ClassV:
@@ -187,10 +196,14 @@ class Exec:
         self.prune.set('timeout', int(__import__('os').environ.get('VERIF_PRUNE_MS', '3000')))
         for hh in hyps: self.prune.add(hh)
         self.pruned = 0
+        self.out_cands = []          # parallel to outs: the witness candidates in force at the end of each path
+        cands_init = self.cands_now
         while work:
             self.prefix = work.pop(); self.pos = 0; self.taken = []; self.alts = []
             self.pc = list(pre)
+            self.cands_now = cands_init
             h = heap.copy()
+            n_before = len(outs)
             try:
                 v = self.call_method(static_cls, name, recv, args, h, 0)
                 outs.append(('return', list(self.pc), h, v))
@@ -200,7 +213,11 @@ class Exec:
                 pass
             except _Abort as a:
                 outs.append(('abort', list(self.pc), h, a.why))
+            except _IterationDone:
+                outs.append(('iteration', list(self.pc), h, None))
+            if len(outs) > n_before: self.out_cands.append(self.cands_now)
             work.extend(self.alts)
+        self.cands_now = cands_init
         return outs
 
     def decide(self, cond):
@@ -333,6 +350,8 @@ class Exec:
         it = self.expr(s.iter, env, heap, depth)
         if isinstance(it, Ref) and it.cls in ('Inlets', 'Outlets'):
             it = ListV(it)
+        if isinstance(it, ExtSeq) and isinstance(s.target, ast.Name):
+            return self.for_loop_invariant(s, it, env, heap, depth)
         if not isinstance(it, ListV) or not isinstance(s.target, ast.Name):
             raise Unsupported('loop over something else than a port list')
         S = it.seq.t
@@ -361,6 +380,41 @@ class Exec:
             v = new.arg(2)
             vx = z3.substitute(v, (e, x))
             setattr(heap, f, z3.Lambda([x], z3.If(inlist, vx, z3.Select(old, x))))
+
+    loop_contract = None     # set by the driver for methods whose loops need an inductive invariant
+    cands_now = None         # candidate witnesses for the goal form of I2 that belong to the heap currently in force
+
+    def for_loop_invariant(self, s, it, env, heap, depth):
+        """`for x in <caller's sequence>: body` with an inductive invariant Inv(j, heap) supplied by the contract
+        (loop_contract.hyp(j, heap) -> (formulas, cands) / loop_contract.goal(j, heap, cands) -> [(name, formula)]):
+          (1) Inv(0, heap at loop entry) is an obligation;
+          (2) one branch executes the body once from an ARBITRARY heap satisfying Inv(j), 0 <= j < n, with x = seq[j], records
+              Inv(j+1, heap after the body) as obligations and ends there;
+          (3) the other branch continues after the loop from an ARBITRARY heap satisfying Inv(n).
+        Nothing is unrolled: the sequence and the heap have any size."""
+        lc = self.loop_contract
+        if lc is None:
+            raise Unsupported('loop over a sequence argument (needs a loop contract)')
+        for nm, goal in lc.goal(z3.IntVal(0), heap, self.cands_now):
+            self.side_obligations.append((f'loop invariant holds on entry: {nm}', list(self.pc), goal))
+        leave = fresh('leave_loop', B)
+        hv = Heap(f'!h{next(_cnt)}')
+        if self.decide(leave):
+            forms, cands = lc.hyp(it.n, hv)
+            self.pc += list(forms)
+            self.cands_now = cands
+            for f in FIELDS: setattr(heap, f, getattr(hv, f))
+            return
+        j = fresh('jl')
+        forms, cands = lc.hyp(j, hv)
+        self.pc += [j >= 0, j < it.n] + list(forms)
+        self.cands_now = cands
+        for f in FIELDS: setattr(heap, f, getattr(hv, f))
+        env = dict(env); env[s.target.id] = Ref(z3.Select(it.arr, j), 'StreamLike')
+        self.block(s.body, env, heap, depth)
+        for nm, goal in lc.goal(j + 1, heap, cands):
+            self.side_obligations.append((f'loop invariant preserved by the body: {nm}', list(self.pc), goal))
+        raise _IterationDone()
 
     # ------------------------------------------------------------- expressions
     def ref(self, v):
